@@ -4,7 +4,7 @@ and writes a short `what` into each meta.json."""
 import json, os, re, sys
 VERIF = os.path.dirname(os.path.dirname(os.path.abspath(__file__)))
 sys.path.insert(0, os.path.join(VERIF, "run"))
-from seed_desc import R1, R2, R3
+from seed_desc import R1, R2, R3, R4
 rows = []
 stats = {"total": 0, "confirmed": 0, "detected": 0, "first_missed": 0}
 for name in sorted(os.listdir(os.path.join(VERIF, "seeded"))):
@@ -14,7 +14,7 @@ for name in sorted(os.listdir(os.path.join(VERIF, "seeded"))):
     m = json.load(open(mp))
     pid = m["property"]
     k = int(name.rsplit("-", 1)[1])
-    what = (R3 if "-r3-" in name else R2 if "-r2-" in name else R1)[pid][k - 1]
+    what = (R4 if "-r4-" in name else R3 if "-r3-" in name else R2 if "-r2-" in name else R1)[pid][k - 1]
     m["breaks_property"] = pid
     m["what"] = what
     json.dump(m, open(mp, "w"), indent=1)
